@@ -336,6 +336,21 @@ CLAIMED = {
 PENDING_REASON = "not claimed yet: model/proofs for this property are still being built (see DESIGN.md §9 build order)"
 
 
+def _surface_counts():
+    import json, os, re
+    out = {}
+    d = os.path.join(os.path.dirname(os.path.abspath(__file__)), "..", "lean", "NibiruProofs")
+    for pid in ALL:
+        try:
+            out[pid] = len(re.findall(r'^  \("', open(os.path.join(d, "Surf%s.lean" % pid)).read(), re.M))
+        except OSError:
+            pass
+    return out
+
+
+SURFACE_N = _surface_counts()
+
+
 def manifest():
     checks = []
     for pid in ALL:
@@ -349,7 +364,9 @@ def manifest():
                 "replay_cmd_template": "bin/check %s --replay {path}" % pid,
                 "engine": "lean4-proof+correspondence",
                 "level_claimed": {"category": "proof", "text": c["text"], "design_ref": c["ref"]},
-                "level_note": c["note"],
+                "level_note": c["note"] + " T1-S: fact_%s_surface_fingerprints re-computes structural fingerprints of the %d "
+                              "declarations this property's model was written from (lib/surface.json, DESIGN 3); a moved fingerprint "
+                              "breaks the obligation and starts the search for a failing input." % (pid, SURFACE_N.get(pid, 0)),
                 "technique": c["technique"],
             })
     return {
@@ -361,7 +378,7 @@ def manifest():
         "engines": [{"name": "lean4-proof+correspondence", "path": "bin/check",
                      "serves_properties": sorted(CLAIMED),
                      "kind_free_text": "Lean 4 theorems over hand-written executable models (lean/NibiruModel, lean/NibiruProofs); tie to "
-                                       "/repo = regenerated facts (harness/cmd/nibiru-extract -> lean/Generated) + differential "
+                                       "/repo = regenerated facts incl. structural fingerprints of the modelled functions (harness/cmd/nibiru-extract -> lean/Generated) + differential "
                                        "correspondence (harness/cmd/nibiru-harness vs compiled Lean driver)"}],
         "checks": checks,
         "notes": "Every check rebuilds the Go harness against /repo's working tree, regenerates the facts, rebuilds the proofs, audits "
